@@ -338,6 +338,26 @@ class RealRunner(wamp.ScriptRunner):
         return wamp.ScriptRunner.make_ret(spec)
 
 
+def classify_sends(env, kind, ser, link_kw, specs):
+    """what the real transport's send() does with a YIELD carrying each value: "ok" or the class of the exception"""
+    from autobahn.wamp import message as M
+    out = []
+    for spec in specs:
+        log = []
+        sess, _ = wamp.make_session(env, log.append, hook=None, transport=False)
+        link = Link(env, kind, ser, log.append, sess, **link_kw)
+        link.open()
+        env.pump()
+        try:
+            link.proto.send(M.Yield(1, args=[RealRunner.make_ret(spec)]))
+            out.append("ok")
+        except Exception as e:  # noqa: BLE001 - the class is the observation
+            out.append(type(e).__name__)
+        link.lose()
+        env.pump()
+    return out
+
+
 def worker_main():
     """argv: framework; stdin: JSON {"jobs": [{"kind","ser","link":{...},"scripts":[[...]]}]} -> {"obs": [[[lines]]]}"""
     import sys
@@ -346,6 +366,9 @@ def worker_main():
     job = json.load(sys.stdin)
     res = []
     for j in job["jobs"]:
+        if "classify" in j:
+            res.append(classify_sends(env, j["kind"], j["ser"], j.get("link", {}), j["classify"]))
+            continue
         r = RealRunner(env, j["kind"], j["ser"], **j.get("link", {}))
         obs = []
         for sc in j["scripts"]:
